@@ -20,16 +20,18 @@ ASSUMPTIONS = [
     "the bookkeeping of the position (C02) and the data-state price are taken as given: a scenario where they diverge "
     "from the generator's expectation is not judged under C15",
     "L1 events carry last_update_time == time_exchange; public trade prices are f64 (integers in the scenarios)",
+    "prices are any integers: market prices (trades, L1 mids) and - for this property only - fill prices include 0 and "
+    "negative values (spreads, sub-zero futures); C15 does not restrict the sign of a price",
 ]
 
 
 def check(ctx):
     ctx.assumptions += ASSUMPTIONS
     ctx.build("c15")
-    P.model_check(ctx, with_fills_model=False)
+    P.model_check(ctx, with_fills_model=False, with_nonpos_fills=True)
     nb = 600 if ctx.quick else 10000
     p_m, scn_m = P.generate(ctx, "GenM_Position.cfg", "market_interleavings.ndjson", simulate=(nb, 18))
-    p_x, scn_x = P.generate(ctx, "GenX_Position.cfg", "fills_exhaustive.ndjson")
+    p_x, scn_x = P.generate(ctx, "GenX_Position_nonpos.cfg", "fills_exhaustive.ndjson")
     ctx.sample({"kind": "TLC simulated interleaving of fills and market events (first 6 steps)",
                 "scenario": {"evs": scn_m[0]["evs"][:6]}})
     judged = unjudged = 0
